@@ -103,21 +103,47 @@ def check_proofs(pid, tier):
     return res
 
 # ------------------------------------------------------------------ step 2: run cases on implementation and model
+IMPL_TIMEOUT = 3600; MODEL_TIMEOUT = 3600
+INCOMPLETE = []          # what a timeout kept a run from exploring (goes into the evidence)
+STALLED = []             # ... when that is more than a tenth of a family: the correspondence was not established
 def run_cases(workdir, tag, cases, release=False):
     os.makedirs(workdir, exist_ok=True)
     cf = os.path.join(workdir, tag + '.cases'); of = os.path.join(workdir, tag + '.obs'); vf = os.path.join(workdir, tag + '.verdict')
     with open(cf, 'w') as f:
         for c in cases: f.write(c); f.write('\n')
+    hung = None
     with open(of, 'w') as out:
-        p = subprocess.run([B.harness_bin(release), cf], stdout=out, stderr=subprocess.PIPE, timeout=3600)
-    if p.returncode: raise RuntimeError('harness failed: ' + p.stderr.decode()[-500:])
+        try:
+            p = subprocess.run([B.harness_bin(release), cf], stdout=out, stderr=subprocess.PIPE, timeout=IMPL_TIMEOUT)
+            if p.returncode: raise RuntimeError('harness failed: ' + p.stderr.decode()[-500:])
+        except subprocess.TimeoutExpired:
+            hung = 'impl'
+    if hung:
+        # the crate did not come back: the case after the last complete observation is reported as a hang (an observation like a panic),
+        # the cases after it were not explored
+        done = [l for l in open(of).read().split('\n')[:-1] if '\t' in l]
+        k = len(done)
+        with open(of, 'w') as out:
+            for l in done: out.write(l + '\n')
+            if k < len(cases): out.write(cases[k] + '\tpanic\n')
+        cases = cases[:k + 1]
+        INCOMPLETE.append('%s: the implementation did not finish within %d s; case %d is reported as a hang, %d cases after it were not run' % (tag, IMPL_TIMEOUT, k, 0))
     with open(vf, 'w') as out:
-        p = subprocess.run('ulimit -s unlimited 2>/dev/null; exec %s %s' % (os.path.join(BUILD, 'driver'), of), shell=True,
-                           stdout=out, stderr=subprocess.PIPE, timeout=3600)
-    if p.returncode: raise RuntimeError('driver failed: ' + p.stderr.decode()[-500:])
+        try:
+            p = subprocess.run('ulimit -s unlimited 2>/dev/null; exec %s %s' % (os.path.join(BUILD, 'driver'), of), shell=True,
+                               stdout=out, stderr=subprocess.PIPE, timeout=MODEL_TIMEOUT)
+            if p.returncode: raise RuntimeError('driver failed: ' + p.stderr.decode()[-500:])
+        except subprocess.TimeoutExpired:
+            hung = 'model'
     obs = open(of).read().split('\n'); ver = open(vf).read().split('\n')
     if obs and obs[-1] == '': obs.pop()
     if ver and ver[-1] == '': ver.pop()
+    if hung == 'model':
+        # the *model* is slow on some input (it is not written for speed): what it did not reach was not explored -- said in the evidence, not an alarm
+        k = max(len(ver) - 1, 0)
+        INCOMPLETE.append('%s: the extracted model did not finish within %d s; %d of %d cases were compared' % (tag, MODEL_TIMEOUT, k, len(cases)))
+        if k < 0.9 * len(cases): STALLED.append(INCOMPLETE[-1])
+        cases = cases[:k]; obs = obs[:k]; ver = ver[:k]
     if len(obs) != len(cases) or len(ver) != len(cases):
         raise RuntimeError('line count mismatch: %d cases, %d observations, %d verdicts' % (len(cases), len(obs), len(ver)))
     out = []
@@ -249,6 +275,9 @@ def main():
                     c, o, v = unexplained_p[0]
                     violations.append({'what': 'implementation panicked on a case of family %s (the model proves Ok/Err there)' % fam_name,
                                        'replay': {'correspondence': fam_name, 'case': c, 'impl': o, 'model': v}, 'no_input': not spec.get('panic_is_failure')})
+        if STALLED and not violations:
+            violations.append({'what': 'the correspondence could not be run to completion: ' + '; '.join(STALLED),
+                               'replay': {'correspondence': 'model driver timeout', 'detail': list(STALLED)}, 'no_input': True})
         ncert = 200 if tier == 'quick' else 2000
         sample = rng.sample(certs, min(ncert, len(certs)))
         good, bad = kernel_certificates(workdir, pid, sample)
@@ -286,6 +315,7 @@ def main():
             'traces_validated_against_impl': cov['traces_validated_against_impl'],
             'families': cov['families'], 'disagreements': cov['disagreements'], 'impl_panics': cov['impl_panics'],
             'known_findings_seen': sorted(known_hits.keys()),
+            'not_explored_because_of_timeouts': list(INCOMPLETE),
             'explanation': spec.get('explanation', ''),
         },
         'assumptions': spec.get('assumptions', []) + ['the correspondence is differential testing; it is exhaustive only over the finite universes named in coverage.families'],
